@@ -65,7 +65,7 @@ def random_stamps(rng, pts, others):
     p = np.asarray(pts)
     span = p[-1] - p[0]
     for _ in range(int(rng.randint(1, 4))):
-        mode = rng.choice(["on", "frac", "cluster", "shared", "outside", "edge", "near", "rounded"])
+        mode = rng.choice(["on", "frac", "cluster", "shared", "outside", "edge", "near", "rounded", "twin"])
         if mode == "on":
             out |= {float(x) for x in rng.choice(p, size=min(len(p), int(rng.randint(1, 4))), replace=False)}
         elif mode == "frac":
@@ -90,6 +90,18 @@ def random_stamps(rng, pts, others):
             out |= {float(p[i] + f * (p[i + 1] - p[i])) for f in np.sort(rng.uniform(0.0, 1.0, k))}
             if rng.rand() < 0.3:
                 out.add(float(p[i]))
+        elif mode == "twin":
+            # two MEASUREMENT stamps that agree up to float noise without being bit-identical - of another sensor (k * 0.1 next to
+            # k * 0.3 / 3) or of this sensor itself: they are two epochs, and both samples are processed (seeded change C11_4)
+            pool_ = sorted(set(out) | {x for o in others for x in o})
+            if not pool_:
+                pool_ = [float(p[int(rng.randint(1, len(p)))] - 0.3 * (p[1] - p[0]))]
+                out.add(pool_[0])
+            for x in rng.choice(pool_, size=min(len(pool_), int(rng.randint(1, 3))), replace=False):
+                x = float(x)
+                eps = float(rng.choice([0.0, 1e-12, 2e-10])) * max(1.0, abs(x))
+                out.add((float(np.nextafter(x, np.inf)) if rng.rand() < 0.5 else float(np.nextafter(x, -np.inf))) if eps == 0.0 else
+                        (x + eps if rng.rand() < 0.5 else x - eps))
         elif mode == "shared" and others:
             src = others[int(rng.randint(len(others)))]
             if src:
